@@ -162,18 +162,22 @@ def skipAttrs : Nat → Toks → Option Toks
   | 0, _ => none
   | n+1, ts =>
     match ts with
-    | t :: t2 :: rest =>
-      if t.typ = .PLUS ∧ t2.typ = .ID then
-        match rest with
-        | t3 :: rest' =>
-          if t3.typ = .LPAREN then (skipParen 0 rest').bind (skipAttrs n)
-          else if t3.typ = .EQUALS then (match rest' with | _ :: r => skipAttrs n r | [] => none)
-          else skipAttrs n rest
-        | [] => some []
+    | [] => some []
+    | t :: ts1 =>
+      if t.typ = .PLUS then
+        match ts1 with
+        | [] => none
+        | t2 :: rest =>
+          if t2.typ = .ID then
+            match rest with
+            | [] => some []
+            | t3 :: rest' =>
+              if t3.typ = .LPAREN then (skipParen 0 rest').bind (skipAttrs n)
+              else if t3.typ = .EQUALS then (match rest' with | _ :: r => skipAttrs n r | [] => none)
+              else skipAttrs n rest
+          else none
       else some ts
-    | _ => some ts
 
-/-- can a declarator start at this token (after a `(`)? -/
 def isTypeName (env : Env) (v : Str) : Bool :=
   match env.unq v with
   | some (.type _) => true
